@@ -240,6 +240,46 @@ def extract_constants(src: str) -> dict:
     appends_thermo = [n for n in ast.walk(rt) if isinstance(n, ast.Call) and ast.unparse(n.func) == 'self.__simulations.append']
     if len(appends_thermo) != 1 or ast.unparse(appends_thermo[0].args[0]) != 'Simulation(thermo=thermo)':
         raise TranslationError('__read_thermo does not append Simulation(thermo=thermo) to self.__simulations')
+    # ---- where the caller's stream is rewound: `log_info.seek(0)` statements around the single pass and around
+    #      the pandas reads (an open stream is passed through by uber_open_rmode and outlives the call)
+    def is_seek0(st):
+        return isinstance(st, ast.Expr) and ast.unparse(st.value) == 'log_info.seek(0)'
+
+    def n_pos_calls(fn):
+        return sum(1 for n in ast.walk(fn) if isinstance(n, ast.Call) and isinstance(n.func, ast.Attribute)
+                   and n.func.attr in ('seek', 'tell', 'truncate', 'close', 'readline', 'readlines'))
+
+    withs = [n for n in ast.walk(read) if isinstance(n, ast.With) and loop in n.body]
+    if len(withs) != 1 or ast.unparse(withs[0].items[0].context_expr) != 'uber_open_rmode(log_info)' \
+            or ast.unparse(withs[0].items[0].optional_vars) != 'log_info':
+        raise TranslationError('Log.read: `with uber_open_rmode(log_info) as log_info:` around the line loop not found')
+    body = withs[0].body
+    if zips[0] not in body:
+        raise TranslationError('Log.read: the table loop is not at the level of the line loop')
+    k_loop, k_zip = body.index(loop), body.index(zips[0])
+    seeks = [k for k, st in enumerate(body) if is_seek0(st)]
+    if n_pos_calls(read) != len(seeks) or any(k > k_zip for k in seeks) or k_zip < k_loop:
+        raise TranslationError('Log.read: stream positioning other than `log_info.seek(0)` statements before the table loop')
+    out['seek_before_scan'] = any(k < k_loop for k in seeks)
+    out['seek_after_scan'] = any(k_loop < k < k_zip for k in seeks)
+    k_csv = [k for k, st in enumerate(rt.body) if c in list(ast.walk(st))]
+    seeks = [k for k, st in enumerate(rt.body) if is_seek0(st)]
+    if len(k_csv) != 1 or n_pos_calls(rt) != len(seeks):
+        raise TranslationError('__read_thermo: stream positioning other than top-level `log_info.seek(0)` statements')
+    out['thermo_seek_before'] = any(k < k_csv[0] for k in seeks)
+    out['thermo_seek_after'] = any(k > k_csv[0] for k in seeks)
+    rp = get_function(src, '__read_performance')
+    if [a.arg for a in rp.args.args][:2] != ['self', 'log_info']:
+        raise TranslationError('__read_performance signature changed')
+    pcalls = [n for n in ast.walk(rp) if isinstance(n, ast.Call) and ast.unparse(n.func) == 'pd.read_csv']
+    if not pcalls or any(len(n.args) != 1 or ast.unparse(n.args[0]) != 'log_info' for n in pcalls):
+        raise TranslationError('__read_performance: pd.read_csv is not called on log_info')
+    k_csv = sorted({k for k, st in enumerate(rp.body) for n in pcalls if n in list(ast.walk(st))})
+    seeks = [k for k, st in enumerate(rp.body) if is_seek0(st)]
+    if not k_csv or n_pos_calls(rp) != len(seeks) or any(k_csv[0] < k < k_csv[-1] for k in seeks):
+        raise TranslationError('__read_performance: stream positioning other than top-level `log_info.seek(0)` statements')
+    out['perf_seek_before'] = any(k < k_csv[0] for k in seeks)
+    out['perf_seek_after'] = any(k > k_csv[-1] for k in seeks)
     # ---- flatten: the two row filters
     fl = get_function(src, 'flatten')
     OPS = {ast.Gt: '>', ast.GtE: '≥', ast.Lt: '<', ast.LtE: '≤', ast.Eq: '=', ast.NotEq: '≠'}
@@ -304,6 +344,14 @@ def translate():
     L.append(f'def resetSimulations : Bool := {b(c["reset_simulations"])}')
     L.append(f'def resetVersion : Bool := {b(c["reset_version"])}')
     L.append(f'def resetDate : Bool := {b(c["reset_date"])}')
+    L.append('/-- is there a `log_info.seek(0)` statement before / after the single pass, before / after the pandas read')
+    L.append('    of `__read_thermo`, before / after the pandas read of `__read_performance` -/')
+    L.append(f'def seekBeforeScan : Bool := {b(c["seek_before_scan"])}')
+    L.append(f'def seekAfterScan : Bool := {b(c["seek_after_scan"])}')
+    L.append(f'def thermoSeekBefore : Bool := {b(c["thermo_seek_before"])}')
+    L.append(f'def thermoSeekAfter : Bool := {b(c["thermo_seek_after"])}')
+    L.append(f'def perfSeekBefore : Bool := {b(c["perf_seek_before"])}')
+    L.append(f'def perfSeekAfter : Bool := {b(c["perf_seek_after"])}')
     L.append('/-- `thermo[thermo.Step ? merged_df.Step.max()]` (style first) -/')
     L.append(f'def firstKeep (step mx : Int) : Bool := decide (step {c["first_keep_op"]} mx)')
     L.append('/-- `merged_df[merged_df.Step ? thermo.Step.min()]` (style last) -/')
@@ -321,6 +369,8 @@ THEOREMS = [
     'C19.read_tables', 'C19.read_layout', 'C19.read_render', 'C19.read_breakdown',
     # read(append=True/False)
     'C19.read_append', 'C19.read_reset', 'C19.append_concat',
+    # the log handed over as an open stream (an object that outlives the call, with a position)
+    'C19.seeks_sound', 'C19.read_stream', 'C19.read_stream_again',
     # version string and date
     'C19.read_version_kept', 'C19.read_version_new', 'C19.version_date', 'C19.month_table_calendar',
     # printed cells are read back token by token
@@ -352,8 +402,12 @@ RULE = ('logs synthesised from the documented layout: optional LAMMPS (<d> <Mon>
         'around blocks, optional WARNING lines inside blocks (correspondence only), new/old/no timing breakdown, '
         'minimize statistics, histograms, truncated last run, \\n or \\r\\n, with/without final newline; step ranges '
         'continuing, restarting on the grid, with gaps, shifted grids, backwards; histories of 1-4 logs read as text/bytes/'
-        'path/stream/file object through Log(..) or read(.., append=None/True/False) interleaved with flatten(first/last/all/'
-        'bogus, firstindex, lastindex); malformed logs for the error classes. distinct = distinct (log texts, ops); '
+        'path/pathlib.Path/BytesIO/open binary file through Log(..) (also a second Log object mid-history) or read(.., '
+        'append=None/True/False) interleaved with flatten(first/last/all/bogus, firstindex, lastindex); the input OBJECT '
+        'is part of the history: one stream object handed to 2-4 consecutive reads as the previous read left it, or moved '
+        'by the caller to the start / the end / a line start / mid-line / before a terminator, fresh streams handed over '
+        'at such positions, streams opened in text mode (documented refusal); '
+        'malformed logs for the error classes. distinct = distinct (log texts, ops); '
         'non-trivial = at least one run in the history')
 ASSUMPTIONS = [
     'pandas.read_csv(stream, header=h, nrows=n, sep=r"\\s+", skip_blank_lines=True) takes non-blank line h as the header, '
@@ -368,19 +422,25 @@ ASSUMPTIONS = [
     'float token makes pandas keep the whole column as text',
     'str.split()/strip() whitespace on the log lines is ASCII whitespace (the synthesised logs contain no other Unicode '
     'whitespace)',
-    'uber_open_rmode presents text, bytes, path and stream input as the same sequence of lines',
+    'uber_open_rmode (potentials package) presents text, bytes and path input as a fresh binary stream at position 0, '
+    'passes an open binary stream through as it stands (position kept, not closed) and refuses a stream opened in text '
+    'mode with ValueError',
+    'pandas.read_csv leaves a binary stream it was given at its end (logs below the 256 KiB chunk size of the C parser); '
+    'only the position reported after a read depends on this (correspondence), no theorem and no oracle clause does',
 ]
 TRUSTED = ['pandas/numpy inside the real Log', 'the log synthesiser and the clause oracle in harness/props/c19.py',
            'the constant extractor (ast walk of Log.read / __read_lammps_version)']
 MANIFEST = {
     'text': 'Lean model over character lists of Log.read (single pass that skips and does not count blank lines, trigger '
             'strings / line-number offsets / version slice / month table regenerated from Log.py on every run, table '
-            'blocks cut out of the non-blank lines, version and date, read(append=) on the state) and of Log.flatten '
+            'blocks cut out of the non-blank lines, version and date, read(append=) on the state, read on a caller-owned stream object '
+            'with a position — the log_info.seek(0) statements being regenerated from the source) and of Log.flatten '
             '(first/last/all folds with pandas NaN semantics). Theorems: every well-formed layout (any preamble, runs '
             'with either banner, blank lines anywhere, arbitrary text between runs incl. timing breakdowns, last run '
             'possibly cut short) is read back as one table per run in order with the header tokens as columns and the '
             'printed lines as rows; a log printed from a token-level specification is read back exactly (tables, version, '
-            'date); append concatenates and append=False resets; flatten all = concatenation; first/last keep exactly the '
+            'date); a log handed over as an open stream is read like its content whatever the position of the stream, also '
+            'when the same stream object is handed over again; append concatenates and append=False resets; flatten all = concatenation; first/last keep exactly the '
             'rows not superseded by an earlier/later run, each step once, from the earliest/latest run printing it, sorted, '
             'complete on aligned grids; logs with well-formed MPI timing-breakdown blocks are read without exception. Tie: translator for the constants + differential correspondence real Log vs '
             'compiled model on synthesised histories (exact on integers, 16 ulp on floats); failing-input search with the '
@@ -1007,6 +1067,39 @@ def expect_of(S: LogSpec) -> dict:
             'dirty': S.dirty}
 
 
+STREAM_MODES = ('stream', 'fstream')            # binary streams: passed through by uber_open_rmode, outlive the call
+TEXT_STREAM_MODES = ('tstream', 'tfstream')     # text-mode streams: refused by uber_open_rmode (ValueError)
+INPUT_MODES = ['text', 'text', 'path', 'stream', 'stream', 'fstream', 'bytes', 'pathobj']
+
+
+def _position(rng, text):
+    """a character index into `text` where the caller leaves a stream: start, end, a line start, mid-line,
+    just before / after a line terminator."""
+    n = len(text)
+    q = rng.random()
+    if q < 0.2 or n == 0:
+        return 0
+    if q < 0.45:
+        return n
+    p = rng.randint(0, n)
+    if q < 0.7:                         # start of a line
+        j = text.rfind('\n', 0, p)
+        return j + 1
+    if q < 0.8:                         # right before a terminator
+        j = text.find('\n', p)
+        return j if j >= 0 else n
+    return p
+
+
+def _read_op(rng, k, mode, first, reuse=False, pre=None):
+    """one `Log(x)` / `read(x, append=…)` op.  `reuse`: x is the one object of this history for (log k, mode) — created
+    at its first use, then handed over again as the previous reads left it; `pre`: the caller first moves the stream
+    to that character index."""
+    if first and rng.random() < 0.5:
+        return ['ctor', k, mode, reuse, pre]
+    return ['read', k, rng.choice([None, None, True, True, False]), mode, reuse, pre]
+
+
 def gen_history(rng, allow_dirty, size='small', allow_backward=True):
     """-> (logs: [{'text','expect'}], ops)."""
     nlogs = rng.choice([1, 1, 1, 2, 2, 3, 4])
@@ -1015,20 +1108,72 @@ def gen_history(rng, allow_dirty, size='small', allow_backward=True):
         S = gen_log(rng, size=size, allow_dirty=allow_dirty, allow_backward=allow_backward)
         logs.append({'text': S.text(), 'expect': expect_of(S)})
     ops = []
-    for k in range(nlogs):
-        mode = rng.choice(['text', 'text', 'path', 'stream', 'fstream', 'bytes'])
-        if k == 0 and rng.random() < 0.5:
-            ops.append(['ctor', k, mode])
-        else:
-            ops.append(['read', k, rng.choice([None, None, True, True, False]), mode])
-        for _ in range(rng.choice([0, 0, 1, 2])):
+
+    def flattens(lo):
+        for _ in range(rng.choice(lo)):
             a = rng.choice([None] * 8 + [0, 1, 2, -1, -2, 7])
             b = rng.choice([None] * 8 + [1, 2, 3, -1, 9])
             ops.append(['flatten', rng.choice(['first'] * 5 + ['last'] * 6 + ['all'] * 4 + ['bogus']), a, b])
+
+    for k in range(nlogs):
+        mode = rng.choice(INPUT_MODES)
+        text = logs[k]['text']
+        q = rng.random()
+        if mode in STREAM_MODES and q < 0.55:
+            # the same stream object handed over several times: untouched in between (as the previous read left it),
+            # or moved by the caller to the start / the end / somewhere inside
+            pre = _position(rng, text) if rng.random() < 0.25 else None
+            ops.append(_read_op(rng, k, mode, k == 0, True, pre))
+            flattens([0, 0, 1])
+            for _ in range(rng.choice([1, 1, 2, 3])):
+                pre = _position(rng, text) if rng.random() < 0.4 else None
+                if rng.random() < 0.25:
+                    ops.append(['ctor', k, mode, True, pre])        # a second Log object on the same stream
+                else:
+                    ops.append(['read', k, rng.choice([None, True, True, True, False]), mode, True, pre])
+                flattens([0, 0, 1])
+        elif mode in STREAM_MODES and q < 0.7:
+            # a fresh stream the caller has already read from
+            ops.append(_read_op(rng, k, mode, k == 0, False, _position(rng, text)))
+            flattens([0, 0, 1, 2])
+        else:
+            ops.append(_read_op(rng, k, mode, k == 0, mode != 'text' and rng.random() < 0.3))
+            flattens([0, 0, 1, 2])
     if rng.random() < 0.3:      # re-read an earlier log
-        ops.append(['read', rng.randrange(nlogs), rng.choice([None, True, False]), 'text'])
+        k = rng.randrange(nlogs)
+        mode = rng.choice(['text', 'text', 'stream', 'fstream', 'path', 'bytes'])
+        ops.append(['read', k, rng.choice([None, True, False]), mode, mode != 'text' and rng.random() < 0.7,
+                    _position(rng, logs[k]['text']) if mode in STREAM_MODES and rng.random() < 0.3 else None])
         ops.append(['flatten', rng.choice(['first', 'last', 'all']), None, None])
+    if rng.random() < 0.04:     # a stream opened in text mode: the documented refusal (ends the history)
+        ops.append(['read', rng.randrange(nlogs), rng.choice([None, True, False]), rng.choice(TEXT_STREAM_MODES),
+                    False, None])
     return logs, ops
+
+
+def op_input(op):
+    """(log index, append or None for the constructor, mode, reuse, pre) of a ctor/read op (old replays carry neither
+    `reuse` nor `pre`)."""
+    if op[0] == 'ctor':
+        rest = list(op[3:]) + [False, None]
+        return op[1], None, op[2], bool(rest[0]), rest[1]
+    rest = list(op[4:]) + [False, None]
+    return op[1], op[2], op[3], bool(rest[0]), rest[1]
+
+
+def _byte_pos(text, p):
+    return len(text[:p].encode('utf-8'))
+
+
+def _line_pos(text, p):
+    """character index -> (whole lines before it, characters into the line)."""
+    return text.count('\n', 0, p), p - (text.rfind('\n', 0, p) + 1)
+
+
+def _char_pos(text, k, c):
+    """(lines, characters) of the model -> character index (the end of the content at most)."""
+    lines = text.split('\n')
+    return min(len(text), sum(len(l) + 1 for l in lines[:k]) + c)
 
 
 class _Files:
@@ -1063,64 +1208,117 @@ def _input(files, text, mode):
         return text.encode('utf-8')
     if mode == 'path':
         return files.path(text)
+    if mode == 'pathobj':
+        import pathlib
+        return pathlib.Path(files.path(text))
     if mode == 'stream':
         return io.BytesIO(text.encode('utf-8'))
-    if mode == 'fstream':
-        f = open(files.path(text), 'rb')
+    if mode == 'tstream':
+        return io.StringIO(text, newline='')
+    if mode in ('fstream', 'tfstream'):
+        f = open(files.path(text), 'rb') if mode == 'fstream' else open(files.path(text), 'r', encoding='utf-8', newline='')
         files.open.append(f)
         return f
     raise ValueError(mode)
 
 
 def run_impl(logs, ops, files):
-    """execute a history on the real atomman. -> list of ('state', st) | ('table', t) | ('err', cls, msg)."""
+    """execute a history on the real atomman. -> list of ('state', st, tell) | ('table', t) | ('err', cls, msg);
+    `tell` = byte position a binary stream handed to the read is left at (None for other inputs)."""
     import atomman.lammps as lmp
     out = []
     log = None
-    for op in ops:
-        try:
-            if op[0] == 'ctor':
-                log = lmp.Log(_input(files, logs[op[1]]['text'], op[2]))
-                out.append(('state', impl_state(log)))
-            elif op[0] == 'read':
-                if log is None:
-                    log = lmp.Log()
-                src = _input(files, logs[op[1]]['text'], op[3])
-                if op[2] is None:
-                    log.read(src)
-                else:
-                    log.read(src, append=op[2])
-                out.append(('state', impl_state(log)))
-            elif op[0] == 'flatten':
-                if log is None:
-                    log = lmp.Log()
-                sim = log.flatten(op[1], op[2], op[3])
-                out.append(('table', impl_table(sim.thermo)))
-        except Exception as e:  # noqa
-            out.append(('err', exc_class(e), f'{type(e).__name__}: {str(e)[:200]}'))
-            if op[0] != 'flatten':      # a failed read leaves the object half-updated: stop the history
-                break
+    objs = {}
+    nopen = len(files.open)
+    try:
+        for op in ops:
+            try:
+                if op[0] in ('ctor', 'read'):
+                    k, append, mode, reuse, pre = op_input(op)
+                    text = logs[k]['text']
+                    if reuse and (k, mode) in objs:
+                        src = objs[(k, mode)]
+                    else:
+                        src = _input(files, text, mode)
+                        if reuse:
+                            objs[(k, mode)] = src
+                    if pre is not None and mode in STREAM_MODES:
+                        src.seek(_byte_pos(text, pre))
+                    if op[0] == 'ctor':
+                        log = lmp.Log(src)
+                    else:
+                        if log is None:
+                            log = lmp.Log()
+                        if append is None:
+                            log.read(src)
+                        else:
+                            log.read(src, append=append)
+                    out.append(('state', impl_state(log), src.tell() if mode in STREAM_MODES else None))
+                elif op[0] == 'flatten':
+                    if log is None:
+                        log = lmp.Log()
+                    sim = log.flatten(op[1], op[2], op[3])
+                    out.append(('table', impl_table(sim.thermo)))
+            except Exception as e:  # noqa
+                out.append(('err', exc_class(e), f'{type(e).__name__}: {str(e)[:200]}'))
+                if op[0] != 'flatten':      # a failed read leaves the object half-updated: stop the history
+                    break
+    finally:
+        for f in files.open[nopen:]:
+            try:
+                f.close()
+            except Exception:  # noqa
+                pass
+        del files.open[nopen:]
     return out
 
 
+REFUSED = 'err:value'        # uber_open_rmode (potentials package, not modelled): text-mode streams raise ValueError
+
+
 def model_requests(logs, ops):
+    """-> (request lines, for each op the index of the request whose reply answers it or None for a canned reply)."""
     req = ['new']
+    where = []
+    ids = {}
+    nid = 0
     for op in ops:
-        if op[0] == 'ctor':
-            req.append('read 1 ' + ' '.join(enc(l) for l in logs[op[1]]['text'].split('\n')))
-        elif op[0] == 'read':
-            a = '1' if op[2] in (None, True) else '0'
-            req.append(f'read {a} ' + ' '.join(enc(l) for l in logs[op[1]]['text'].split('\n')))
+        if op[0] in ('ctor', 'read'):
+            k, append, mode, reuse, pre = op_input(op)
+            text = logs[k]['text']
+            if op[0] == 'ctor':
+                req.append('new')
+            a = '1' if append in (None, True) else '0'
+            if mode in TEXT_STREAM_MODES:
+                where.append(None)
+            elif mode in STREAM_MODES:
+                if reuse and (k, mode) in ids:
+                    sid = ids[(k, mode)]
+                else:
+                    sid = nid
+                    nid += 1
+                    if reuse:
+                        ids[(k, mode)] = sid
+                    req.append(f'sopen {sid} ' + ' '.join(enc(l) for l in text.split('\n')))
+                if pre is not None:
+                    lk, lc = _line_pos(text, pre)
+                    req.append(f'sseek {sid} {lk} {lc}')
+                req.append(f'sread {sid} {a}')
+                where.append(len(req) - 1)
+            else:
+                req.append(f'read {a} ' + ' '.join(enc(l) for l in text.split('\n')))
+                where.append(len(req) - 1)
         else:
             f = lambda x: 'none' if x is None else str(x)  # noqa
             req.append(f'flatten {enc(op[1])} {f(op[2])} {f(op[3])}')
-    return req
+            where.append(len(req) - 1)
+    return req, where
 
 
-def compare_history(impl_out, replies):
-    """-> None or (op index, description). replies[0] answers `new`."""
+def compare_history(logs, ops, impl_out, replies, where):
+    """-> None or (op index, description)."""
     for k, res in enumerate(impl_out):
-        rep = replies[k + 1]
+        rep = REFUSED if where[k] is None else replies[where[k]]
         if res[0] == 'err':
             if rep != res[1]:
                 return k, f'implementation raised {res[2]} but the model answers {rep[:120]}'
@@ -1130,9 +1328,19 @@ def compare_history(impl_out, replies):
         if rep.startswith('err:'):
             return k, f'model answers {rep} but the implementation returned a result'
         if res[0] == 'state':
+            pos = None
+            if ' @' in rep:
+                rep, at = rep.rsplit(' @', 1)
+                pos = tuple(int(x) for x in at.split(','))
             d = state_diff(res[1], parse_state(rep))
             if d:
                 return k, d
+            if pos is not None and len(res) > 2 and res[2] is not None:
+                text = logs[op_input(ops[k])[0]]['text']
+                want = _byte_pos(text, _char_pos(text, *pos))
+                if res[2] != want:
+                    return k, (f'the stream handed to the read is left at byte {res[2]} of {len(text.encode("utf-8"))}, '
+                               f'model: at byte {want}')
         else:
             mt = parse_table_reply(rep)
             if res[1][0] != mt[0]:
@@ -1157,16 +1365,20 @@ def correspond(ctx):
         reqs = []
         for logs, ops in hist:
             reqs.append(model_requests(logs, ops))
-        flat = [r for rq in reqs for r in rq]
+        flat = [r for rq, _ in reqs for r in rq]
         replies = ctx.driver.ask_many(flat)
         pos = 0
         nerr = 0
-        for (logs, ops), rq in zip(hist, reqs):
+        nreuse = 0
+        for (logs, ops), (rq, where) in zip(hist, reqs):
             rep = replies[pos:pos + len(rq)]
             pos += len(rq)
             impl_out = run_impl(logs, ops, files)
-            bad = compare_history(impl_out, rep)
+            bad = compare_history(logs, ops, impl_out, rep, where)
             kinds = '+'.join(sorted({o[0] for o in ops}))
+            if any(o[0] != 'flatten' and (op_input(o)[3] or op_input(o)[4] is not None) for o in ops):
+                kinds += '+reused/positioned-stream'
+                nreuse += 1
             nruns = sum(len(l['expect']['runs']) for l in logs) if all('expect' in l for l in logs) else -1
             ctx.stats.case('history:' + kinds, [l['text'] for l in logs] + [ops], nontrivial=nruns != 0,
                            sample={'ops': ops, 'runs': nruns, 'first_log_head': logs[0]['text'][:300]})
@@ -1180,6 +1392,7 @@ def correspond(ctx):
                     break
         ctx.extra['histories'] = len(hist)
         ctx.extra['histories_ending_in_error'] = nerr
+        ctx.extra['histories_with_reused_or_positioned_stream'] = nreuse
     finally:
         files.close()
 
@@ -1301,18 +1514,26 @@ def check_history_clauses(logs, ops, impl_out):
     for k, (op, res) in enumerate(zip(ops, impl_out)):
         if op[0] in ('ctor', 'read'):
             e = logs[op[1]]['expect']
-            append = True if op[0] == 'ctor' else (op[2] is None or op[2] is True)
-            if cur is None or not append:
+            _, app, mode, reuse, pre = op_input(op)
+            append = op[0] != 'ctor' and (app is None or app is True)
+            if cur is None or not append:       # a new Log object / append=False
                 cur = {'version': None, 'date': None, 'runs': []}
+            # whatever object carries the log (text, bytes, path, open binary stream — fresh, handed over before, or
+            # left somewhere by the caller), the log is its whole content
             cur = {'version': cur['version'] if cur['version'] is not None else e['version'],
                    'date': cur['date'] if cur['version'] is not None else e['date'],
                    'runs': cur['runs'] + e['runs']}
+            how = mode + ' input' + (', the object handed over before' if reuse and any(
+                o[0] != 'flatten' and op_input(o)[3] and (o[1], op_input(o)[2]) == (op[1], mode) for o in ops[:k]) else '') \
+                + (f', left by the caller at character {pre} of {len(logs[op[1]]["text"])}' if pre is not None else '')
             if res[0] == 'err':
-                return 'read:raises', f'op {k} {op[0]}({op[-1]} input): reading a well-formed log raised {res[2]}'
+                if mode in TEXT_STREAM_MODES and res[1] == REFUSED:
+                    return None         # the documented refusal of streams opened in text mode; the history ends here
+                return 'read:raises', f'op {k} {op[0]}({how}): reading a well-formed log raised {res[2]}'
             st = res[1]
             if len(st['sims']) != len(cur['runs']):
-                return ('read:append' if k > 0 else 'read:runs',
-                        f'op {k}: {len(st["sims"])} simulation records, expected {len(cur["runs"])} '
+                return ('read:append' if (k > 0 and append) else 'read:runs',
+                        f'op {k} {op[0]}({how}): {len(st["sims"])} simulation records, expected {len(cur["runs"])} '
                         f'(one per run, appended after the existing ones)')
             for j, ((tab, _), run) in enumerate(zip(st['sims'], cur['runs'])):
                 if tab[0] != run['cols']:
@@ -1417,8 +1638,9 @@ def replay(ctx, payload):
             if bad:
                 ctx.violate(bad[0], bad[1], r)
         if ctx.driver is not None:
-            rep = [ctx.driver.ask(q) for q in model_requests(logs, ops)]
-            d = compare_history(impl_out, rep)
+            rq, where = model_requests(logs, ops)
+            rep = [ctx.driver.ask(q) for q in rq]
+            d = compare_history(logs, ops, impl_out, rep, where)
             if d:
                 ctx.disagree('history:' + ops[d[0]][0], f'op {d[0]} {ops[d[0]]}: {d[1]}', r)
     finally:
